@@ -126,6 +126,28 @@ impl Monitor for C07 {
                 ctx.check(&Case::new(ev, "tree", &s, Val::D(ph)), &|c, st| self.judge(c, st));
             }
         }
+        // exactness does not depend on the length of the input: sums and products of hundreds to a
+        // couple of thousand short terms, every term with a prefix sign (a long flat tree)
+        let n_long = ctx.tier.pick(48u64, 600);
+        for i in 0..n_long {
+            if ctx.mine() {
+                let mut rng = ctx.rng("long-chain", i);
+                // the unoptimised build of the library itself runs out of its 8 MiB stack at about 700 terms
+                // (its evaluator recurses once per term), so the longest chains go to the release build only
+                let k = rng.below(5);
+                let n_terms = if ctx.config == "release" { [120usize, 300, 700, 1100, 1600][k] } else { [60usize, 120, 200, 300, 400][k] };
+                let terms = ["0.5", "1", "0.25", "2", "0.125", "3", "1.5", "10", "0.1"];
+                let joins: &[&str] = if rng.chance(1, 4) { &["*-", "*", "*+"] } else { &["+-", "--", "+-", "--", "-", "+-"] };
+                let small = joins[0] == "*-";
+                let mut t = format!("-{}", *rng.pick(&terms[..]));
+                for _ in 1..n_terms {
+                    t.push_str(*rng.pick(joins));
+                    // products stay representable: powers of two shrinking and growing in turn
+                    t.push_str(if small { *rng.pick(&["0.5", "2", "1", "2", "0.5"][..]) } else { *rng.pick(&terms[..]) });
+                }
+                ctx.check(&Case::new(ev, "long-chain", &t, Val::D(pool[0])), &|c, st| self.judge(c, st));
+            }
+        }
     }
     fn judge(&self, case: &Case, st: &mut Stats) -> Verdict {
         let s = &case.exprs[0];
@@ -156,7 +178,7 @@ impl Monitor for C07 {
         to_verdict("C07", case.ev, &shape, rv, false)
     }
     fn rule(&self) -> &'static str {
-        "depth-1: + - * / % (and mod) over every ordered pair of the boundary pool (scales 0..28, 27/28-digit coefficients at scales 0,1,14,27,28, Decimal::MAX and neighbours, negatives, zeros of every scale) as literals and through @, plus random operands of 1..29 digits and scale 0..28; trees of depth<=5 over + - * and unary minus with / or % near the root; oracle = exact rational arithmetic on the harness's own big integers: representable results must be numerically equal, non-representable quotients within 1e-27*max(1,|q|), zero divisors and results beyond +-Decimal::MAX must be Err (a panic counts as a violation); in-range results that need rounding are unspecified; non-trivial = the reference gives a verdict; distinct = distinct (expression, placeholder)"
+        "depth-1: + - * / % (and mod) over every ordered pair of the boundary pool (scales 0..28, 27/28-digit coefficients at scales 0,1,14,27,28, Decimal::MAX and neighbours, negatives, zeros of every scale) as literals and through @, plus random operands of 1..29 digits and scale 0..28; trees of depth<=5 over + - * and unary minus with / or % near the root; flat sums and products of 120..1600 short signed terms (inputs of up to several thousand characters); oracle = exact rational arithmetic on the harness's own big integers: representable results must be numerically equal, non-representable quotients within 1e-27*max(1,|q|), zero divisors and results beyond +-Decimal::MAX must be Err (a panic counts as a violation); in-range results that need rounding are unspecified; non-trivial = the reference gives a verdict; distinct = distinct (expression, placeholder)"
     }
     fn assumptions(&self) -> Vec<&'static str> {
         vec!["numeric equality ignores the scale of the result (0.30 equals 0.3)", "literals are judged only with at most 28 significant and 28 fractional digits"]
